@@ -362,6 +362,30 @@ fn explore(ctx: &mut Ctx) {
         }
     }
     ctx.exhaustive_part("long patterns: every prefix (length 1..=48) of a 48-byte pattern x a single changed byte at every position (or none), as prefix, as suffix and as second repetition");
+    // long periodic patterns: pattern = a b^k (k up to 140); the input is pattern^2 followed / preceded by a proper
+    // prefix / suffix of the pattern (a partial third repetition), and by pattern with its last byte changed
+    {
+        let ks: Vec<usize> = (0..=140usize).chain([200, 255, 256, 300]).collect();
+        for &k in &ks {
+            let mut pat = vec![b'a'];
+            pat.extend(std::iter::repeat(b'b').take(k));
+            for cut in [0usize, 1, k / 2 + 1, k] {
+                let cut = cut.min(pat.len() - 1).max(0);
+                let mut v = [pat.clone(), pat.clone()].concat();
+                v.extend_from_slice(&pat[..cut]);
+                v.extend_from_slice(b"#");
+                v.extend_from_slice(&pat[pat.len() - cut..]);
+                v.extend_from_slice(&pat);
+                v.extend_from_slice(&pat);
+                eval(ctx, &v, &pat);
+            }
+            let mut wrong = pat.clone();
+            *wrong.last_mut().unwrap() ^= 1;
+            let v = [pat.clone(), wrong.clone(), b"#".to_vec(), wrong, pat.clone()].concat();
+            eval(ctx, &v, &pat);
+        }
+        ctx.exhaustive_part("long periodic patterns a b^k (k in 0..=140 and 4 larger): two repetitions plus a partial third on each side of a core, and a repetition with its last byte changed");
+    }
     // inputs longer than 2^16: repeated pattern with the first foreign byte at offsets around 2^8, 2^15, 2^16
     {
         for pat in [&b"ab"[..], b"a", b" ", "\u{e9}".as_bytes()] {
